@@ -330,6 +330,10 @@ func main() {
 	case 0:
 		fmt.Printf("OK property=%s tier=%s wall=%.1fs\n", chk.Property, *flagTier, time.Since(start).Seconds())
 	}
+	replayer.cleanup() // os.Exit does not run deferred calls
+	if crossDir != "" {
+		os.RemoveAll(crossDir)
+	}
 	os.Exit(exit)
 }
 
